@@ -370,8 +370,10 @@ Apply(name, left, args, cfg) ==
                   n == Len(items)
                   len == IF Len(args) = 2 THEN a2.n ELSE 1
                   st == IF a1.n < 0 THEN n + a1.n ELSE a1.n
-              IN IF st < 0 THEN Err("UNSPEC")          \* a start before the beginning
-                 ELSE LET piece == IF len <= 0 THEN SubSeq(items, 1, 0) ELSE SubSeq(items, st + 1, MinOf(st + len, n)) IN
+              \* a start before the beginning: the window [st, st + len) still counts from there (what falls
+              \* before the first item is not there); MC_Filters also accepts the empty result for it
+              IN LET piece == IF len <= 0 \/ st + len <= 0 THEN SubSeq(items, 1, 0)
+                              ELSE SubSeq(items, (IF st < 0 THEN 0 ELSE st) + 1, MinOf(st + len, n)) IN
                       IF left.t = "str" THEN MkText(piece, lsafe) ELSE Arr(piece)
     [] name \in {"replace_last", "remove_last"} ->
          IF (name = "replace_last" /\ Len(args) # 2) \/ (name = "remove_last" /\ Len(args) # 1) THEN Err("LiquidTypeError")
